@@ -84,3 +84,31 @@ if __name__ == "__main__":
         sys.exit(2)
     for r in run_many(hs, parallel=int(os.environ.get("KANI_PAR", "4"))):
         print(json.dumps(r))
+
+
+def playback(h, timeout_s=900):
+    """Replay a failed harness natively: generate the concrete-playback unit test in a scratch copy of the crate and run it
+    as an ordinary test (dev profile). -> dict(reproduced: bool|None, detail)"""
+    import shutil, tempfile
+    work = os.path.join(VERIF, ".work", "kani-playback")
+    shutil.rmtree(work, ignore_errors=True)
+    shutil.copytree(KDIR, work, ignore=shutil.ignore_patterns("target"))
+    env = dict(os.environ, CARGO_NET_OFFLINE="true", RUSTFLAGS="--cfg qrlew_verif")
+    tdir = os.path.join(VERIF, ".target", "kani")
+    p = subprocess.run("timeout %d cargo kani --target-dir %s --harness %s -Z concrete-playback --concrete-playback=inplace" % (timeout_s, tdir, h),
+                       shell=True, cwd=work, env=env, stdout=subprocess.PIPE, stderr=subprocess.STDOUT, text=True)
+    src = open(os.path.join(work, "src", "lib.rs")).read()
+    if "kani_concrete_playback" not in src:
+        return dict(reproduced=None, detail="no playback test generated: " + p.stdout[-300:])
+    q = subprocess.run("timeout %d cargo kani playback -Z concrete-playback -- kani_concrete_playback" % timeout_s, shell=True, cwd=work, env=env,
+                       stdout=subprocess.PIPE, stderr=subprocess.STDOUT, text=True)
+    out = q.stdout
+    failed = re.findall(r"test (\S+) \.\.\. FAILED", out)
+    passed = re.findall(r"test (\S+) \.\.\. ok", out)
+    panics = re.findall(r"panicked at ([^\n]+)\n([^\n]*)", out)
+    shutil.rmtree(os.path.join(work, "target"), ignore_errors=True)
+    if failed:
+        return dict(reproduced=True, detail="native replay fails: %s" % "; ".join("%s: %s" % (a, b) for a, b in panics[:3]), tests_failed=failed)
+    if passed:
+        return dict(reproduced=False, detail="native replay of the counterexample passes (%d tests)" % len(passed))
+    return dict(reproduced=None, detail="playback did not run: " + out[-300:])
